@@ -121,6 +121,10 @@ func checkC20(p *Prog, r *Report) {
 	rStep := r.Rule("setup-steps-fatal", "every set-up step of rmain reports its error and exits non-zero")
 	rSwal := r.Rule("errors-not-swallowed", "along the start-up chain a tested error never leads to a success return unless reported; only allow-listed errors go untested")
 	rRest := r.Rule("restoration-not-bypassed", "cleanup is deferred first after the shell is set up; no exit call can skip it; New's own error paths clean up")
+	/* -print-ctrl-i reports a source it cannot convert: the generator hands
+	back the conversion's own error, and never an empty success in its
+	place (C17's rule, under this property's start-up clause). */
+	checkCtrlIGenerator(p, r, r.Rule("ctrl-i-generator", "main's Ctrl+I generator returns Converter.From's payload and error and nothing else"))
 	/* A damaged certificate cache is a start-up failure to be reported, not
 	a missing cache to be regenerated over (C08's rule, under this
 	property's "message naming the cause" clause). */
